@@ -75,6 +75,13 @@ def run(ctx):
     if sm:
         for i, item in enumerate([x.strip() for x in sm.group(1).split(",") if x.strip()]):
             sp[item.split("=")[0].strip()] = i
+    un = {}
+    um = re.search(r"typedef\s+enum\s*\{([^}]*)\}\s*TickitPenUnderline\s*;", hdr, flags=re.S)
+    if um:
+        for i, item in enumerate([x.strip() for x in um.group(1).split(",") if x.strip()]):
+            un[item.split("=")[0].strip()] = i
+    if un.get("TICKIT_PEN_UNDER_DOUBLE") is None:
+        info["untranslatable"].append("enum:TickitPenUnderline")
     mm = re.search(r"static\s+bool\s+chpen\s*\([^)]*\)\s*\{.*?\bint\s+params\s*\[\s*(\d+)\s*\]", xt, flags=re.S)
     cap = int(mm.group(1)) if mm else None
     if cap is None:
@@ -111,9 +118,10 @@ def run(ctx):
     body += "def sgrOn : Nat → Nat\n" + "".join(f"  | {i} => {v[0]}\n" for i, v in enumerate(onoff)) + "  | _ => 0\n"
     body += "def sgrOff : Nat → Nat\n" + "".join(f"  | {i} => {v[1]}\n" for i, v in enumerate(onoff)) + "  | _ => 0\n"
     body += f"def sgrOnOffSize : Nat := {len(onoff)}\n"
+    body += f"def underDouble : Int := {un.get('TICKIT_PEN_UNDER_DOUBLE', -1)}\n"
     body += f"def sizeposSmall : Int := {sp.get('TICKIT_PEN_SIZEPOS_SMALL', -1)}\n"
     body += f"def sizeposSuperscript : Int := {sp.get('TICKIT_PEN_SIZEPOS_SUPERSCRIPT', -1)}\n"
     body += f"def sizeposSubscript : Int := {sp.get('TICKIT_PEN_SIZEPOS_SUBSCRIPT', -1)}\n"
     body += "end Tickit.Gen.Sgr\n"
     write("Sgr", body)
-    info["sgr"] = {"params_cap": cap, "onoff": onoff, "more_mask": mask, "sizepos": sp}
+    info["sgr"] = {"params_cap": cap, "onoff": onoff, "more_mask": mask, "sizepos": sp, "under": un}
